@@ -13,6 +13,7 @@ import Ops.EncBuf
 import Ops.C0506
 import Ops.KdTree
 import Ops.KdEnc
+import Ops.EbEnc
 /- Line-protocol driver of the executable model: one op per line in, one line out. -/
 open Draco
 
@@ -31,7 +32,8 @@ def allOps : List (String × (List String → String)) := List.flatten [
   Ops.encBufOps,
   Ops.c0506Ops,
   Ops.kdTreeOps,
-  Ops.kdEncOps]
+  Ops.kdEncOps,
+  Ops.ebEncOps]
 
 def dispatch (line : String) : String :=
   match (line.trimAscii.toString.splitOn " ").filter (· ≠ "") with
